@@ -69,7 +69,7 @@ LocVals(def, env, k) ==
        IF ~prev[1] THEN <<FALSE, <<>>>>
        ELSE LET v == Ev(def.locs[k].e, [env EXCEPT !.l = prev[2]]) IN <<v[1], Append(prev[2], v[2])>>
 Extrapolates(def) == def.extra \in {"", "true"}
-DataValue(def, x) ==
+DataValueI(def, x) ==
   IF Len(def.ins) = 0 THEN RI(def.ys[1])
   ELSE LET q == x[1] IN
        IF def.interp = "cubic_spline"
@@ -78,6 +78,7 @@ DataValue(def, x) ==
              ELSE IF Above(def.xs, q) THEN RI(def.ys[Len(def.xs)])
              ELSE Spline(def.xs, def.ys, q))
        ELSE Linear(def.xs, def.ys, q, Extrapolates(def))
+DataValue(def, x) == RDiv(DataValueI(def, x), RI(def.yden))      \* the ordinates of the file are ys / yden
 \* x : sequence of normalised rationals (one per input, declaration order); p : sequence of normalised rationals (one per parameter)
 Value(def, x, p) ==
   IF def.kind = "data" THEN Ok(DataValue(def, x))
